@@ -251,6 +251,15 @@ reg(
   "Warp debug mode does not trap negative indices >= -shape; NaN-free inputs; numerical blow-up is not judged; exceptions from put_model/make_data are clean rejections; CPU device.",
 )
 
+reg(
+  "C36",
+  "property-based metamorphic testing (Hypothesis-generated programs): the last item's result in-sequence == the same item in a fresh Python process, bitwise",
+  "Programs of 2-4 (model, options, capacities, worlds, state) items run in one process that also carries the worker's earlier cases; consecutive items are drawn to collide on MJWarp's process-global cache keys "
+  "while differing in meaning (same model with other cone/solver/jacobian/integrator/NATIVECCD/MULTICCD flags, same sizes with other geom-type inventories, other capacities or world counts, contact scenes with other "
+  "collision-pair sets); state, qacc, sensordata, counts, solver iterations and the sorted contact list of the last item must be bit-identical to a fresh-process run.",
+  "CPU device (deterministic kernels); the fresh process shares the on-disk kernel cache; one fresh interpreter per case bounds the case count (tens per quick run).",
+)
+
 NOT_APPLICABLE = {}
 
 
